@@ -248,7 +248,9 @@ def tlc(module, cfg, workers=None, simulate=None, depth=None, seed=None, env=Non
     if res.rc != 0 and not res.violated:
         # 12/13 = violations; others are errors
         res.error = out[-3000:]
-        raise MachineryError("TLC failed rc=%d on %s/%s:\n%s" % (res.rc, module, cfg, out[-3000:]))
+        errs = [i for i, ln in enumerate(lines) if ln.startswith("Error:") or "xception" in ln]
+        detail = "\n".join(lines[errs[0]:errs[0] + 25]) if errs else ""
+        raise MachineryError("TLC failed rc=%d on %s/%s:\n%s\n...\n%s" % (res.rc, module, cfg, detail, out[-1500:]))
     if simulate and not m and res.states == 0:
         mm = re.search(r"(\d+) states checked", out)
         if mm:
@@ -259,6 +261,17 @@ def tlc(module, cfg, workers=None, simulate=None, depth=None, seed=None, env=Non
 def _mk(d):
     os.makedirs(d, exist_ok=True)
     return d
+
+
+def no_nulls(x):
+    """TLC's JSON reader has no null: replace None recursively."""
+    if x is None:
+        return "none"
+    if isinstance(x, dict):
+        return {k: no_nulls(v) for k, v in x.items()}
+    if isinstance(x, (list, tuple)):
+        return [no_nulls(v) for v in x]
+    return x
 
 
 def validate_trace(module, cfg, trace_path, timeout=600, extra_env=None):
